@@ -102,7 +102,9 @@ pub fn plausible60(mb: u64) -> bool {
 
 /// Truncation of a signed quantity: either direction is accepted ("integers truncated" does not fix it).
 pub fn int_matches(got: i64, exact: f64) -> bool {
-    got == exact.floor() as i64 || got == exact.ceil() as i64 || got == exact.trunc() as i64
+    // for a non-negative quantity truncation is unambiguous; for a negative one "truncated" may mean
+    // towards zero or towards minus infinity
+    if exact >= 0.0 { got == exact.floor() as i64 } else { got == exact.floor() as i64 || got == exact.ceil() as i64 }
 }
 
 /// Callsign of a BDS 2,0 register (C07's character table).
